@@ -127,20 +127,27 @@ def sql_scripts():
 _DRIVER = []
 
 def sql_settings():
-    """bounded stand-in for SQLTransactionState.apply: every history of <= 5 SET / SAVEPOINT / ROLLBACK TO statements over two savepoint names against a reference stack"""
+    """bounded stand-in for SQLTransactionState.apply: every history of <= 5 SET / BEGIN / COMMIT / ROLLBACK / SAVEPOINT / ROLLBACK TO statements (two savepoint names),
+    from a session with a non-default setting and no transaction in progress, against a reference model of what PostgreSQL exposes: the value visible after every statement,
+    the live savepoints after every ROLLBACK TO, and which ROLLBACK TO statements are accepted"""
     import immutables
     TA = dbstate.TxAction
     class U:
         def __init__(self, action, sp_name=None, set_vars=None, is_local=False):
             self.tx_action = action; self.sp_name = sp_name; self.frontend_only = bool(set_vars); self.set_vars = set_vars; self.is_local = is_local
     def run(history):
-        st = dbstate.SQLTransactionState(in_tx=False, settings=immutables.Map(), in_tx_settings=None, in_tx_local_settings=None, savepoints=[])
-        st.apply(U(TA.START)); ref = []; val = None; n = 0
+        st = dbstate.SQLTransactionState(in_tx=False, settings=immutables.Map({'x': ('session',)}), in_tx_settings=None, in_tx_local_settings=None, savepoints=[])
+        cur = base = ('session',); ref = []; n = 0      # cur: visible value; base: value a ROLLBACK goes back to; ref: live savepoints (name, value)
         for op, name in history:
             if op == 'set':
-                n += 1; val = ('v%d' % n,); st.apply(U(None, set_vars={'x': val}))
+                n += 1; cur = ('v%d' % n,); st.apply(U(None, set_vars={'x': cur}))
+            elif op == 'begin': st.apply(U(TA.START))
+            elif op == 'commit': st.apply(U(TA.COMMIT)); base = cur; ref = []
+            elif op == 'rollback': st.apply(U(TA.ROLLBACK)); cur = base; ref = []
             elif op == 'sp':
-                st.apply(U(TA.DECLARE_SAVEPOINT, name)); ref.append((name, val))
+                try: st.apply(U(TA.DECLARE_SAVEPOINT, name))
+                except AssertionError: return None      # no transaction of any kind yet (first statement of the request): outside this model
+                ref.append((name, cur))
             else:
                 idx = max([i for i, (nm, _) in enumerate(ref) if nm == name], default=None)
                 try: st.apply(U(TA.ROLLBACK_TO_SAVEPOINT, name)); ok = True; err = None
@@ -149,13 +156,13 @@ def sql_settings():
                     if ok: return 'ROLLBACK TO %s accepted although no such savepoint exists' % name
                     return None
                 if not ok: return 'ROLLBACK TO SAVEPOINT %s rejected (%s) although the savepoint exists (live savepoints: %s)' % (name, err, [nm for nm, _ in ref])
-                del ref[idx + 1:]; val = ref[idx][1]
-                got = (st.in_tx_local_settings or {}).get('x')
-                if got != val: return 'after ROLLBACK TO %s the setting x is %r, expected %r' % (name, got, val)
+                del ref[idx + 1:]; cur = ref[idx][1]
                 if [s_[0] for s_ in st.savepoints] != [nm for nm, _ in ref]:
                     return 'after ROLLBACK TO %s the live savepoints are %s, expected %s' % (name, [s_[0] for s_ in st.savepoints], [nm for nm, _ in ref])
+            got = st.current_fe_settings().get('x')
+            if got != cur: return 'after `%s` the setting x visible to the next statement is %r, expected %r' % (('%s %s' % (op, name or '')).strip(), got, cur)
         return None
-    OPS = [('set', None), ('sp', 'a'), ('sp', 'b'), ('rb', 'a'), ('rb', 'b')]
+    OPS = [('set', None), ('begin', None), ('commit', None), ('rollback', None), ('sp', 'a'), ('sp', 'b'), ('rb', 'a'), ('rb', 'b')]
     n = 0
     for L in range(1, 6):
         for h in itertools.product(OPS, repeat=L):
